@@ -21,18 +21,18 @@ import (
 )
 
 type Cfg struct {
-	Origin  uint64  `json:"origin_ms"`
-	NRes    int     `json:"nres"`
-	FlowT   []int   `json:"flow_threshold"` // per resource, -1 none
-	IsoN    []int   `json:"iso_threshold"`  // per resource, 0 none
-	HotT    []int   `json:"hotspot_threshold"`
-	Conc    bool    `json:"concurrent,omitempty"`
-	ChkLate bool    `json:"scripted_check_before_rules,omitempty"`
+	Origin  uint64 `json:"origin_ms"`
+	NRes    int    `json:"nres"`
+	FlowT   []int  `json:"flow_threshold"` // per resource, -1 none
+	IsoN    []int  `json:"iso_threshold"`  // per resource, 0 none
+	HotT    []int  `json:"hotspot_threshold"`
+	Conc    bool   `json:"concurrent,omitempty"`
+	ChkLate bool   `json:"scripted_check_before_rules,omitempty"`
 	// NilPanic: the scripted slots panic with a nil value. The worker is built with //go:debug panicnil=1 (the
 	// default of every main module that declares a Go version below 1.21), under which recover() then returns nil:
 	// a recovery that recognises a panic by "recover() != nil" takes it for a normal return.
-	NilPanic bool `json:"nil_panic,omitempty"`
-	_       float64 // keep struct comparable-free
+	NilPanic bool    `json:"nil_panic,omitempty"`
+	_        float64 // keep struct comparable-free
 }
 
 // entry scripts (carried to the scripted slots in ctx.Input.Flag)
